@@ -106,8 +106,13 @@ class TrampHarness(VtsHarness):
         fn = f.func if isinstance(f, BoundMethod) else f
         if isinstance(fn, Closure) and fn.qualname == "Trampoline._run" and self.stub_run:
             self.w.log.append(("_run", dict(self.w.depth), self.obj.fields.get("_idle")))
-            if it.ctx.choose(2, "_run raises") == 1:
+            how = it.ctx.choose(3, "_run returns / raises an Exception / raises a BaseException that is no Exception (KeyboardInterrupt, SystemExit)")
+            if how == 1:
                 self.run_exc = SV(it.ctx.fresh("run_exc", "val").t, "val", tag="exc")
+                raise PyExc(self.run_exc)
+            if how == 2:
+                # whatever leaves the run loop, the trampoline must not stay marked busy (every later action would only be queued)
+                self.run_exc = Opaque("exc", "keyboard-interrupt", base_exception_only=True)
                 raise PyExc(self.run_exc)
             # contract of _run (proved on the loop below): it returns normally only from the critical section that found the queue
             # empty and made the trampoline idle.  From that moment another thread may be the runner: the flag is arbitrary, and
@@ -504,6 +509,7 @@ MUTANTS = {
     "leaves the loop with items queued": ("                if len(self._queue) == 0:\n", "                if len(self._queue) <= 1:\n"),
     "epilogue runs after a normal end too (lost / nested actions of another thread)": ("        except BaseException:\n            with self._lock:\n                self._idle = True\n                self._queue.clear()\n            raise\n",
                                                                                       "        finally:\n            with self._lock:\n                self._idle = True\n                self._queue.clear()\n"),
+    "the epilogue only handles Exception": ("        except BaseException:\n", "        except Exception:\n"),
     "goes idle outside the emptiness check": ("                    self._idle = True\n                    break", "                    break"),
     "item not enqueued when busy": ("        with self._lock:\n            self._queue.enqueue(item)\n            if self._idle:\n                self._idle = False",
                                     "        with self._lock:\n            if self._idle:\n                self._queue.enqueue(item)\n                self._idle = False"),
